@@ -1,5 +1,352 @@
 import PpciVerif.Model.Linker
 import PpciVerif.Spec.Link
+import PpciVerif.Proofs.Linker
+import PpciVerif.Proofs.LinkerLayout
+import PpciVerif.Proofs.LinkerIff
+/-!
+# C12 — the linker places sections correctly and preserves their contents
+
+Property theorems only.  Model: `Model.Linker` (hand model of
+`ppci/binutils/linker.py`, `objectfile.py`, layout input kinds; tied to the
+source by the correspondence check `harness/c12.py` through the real `link()`).
+`linkT inp = .ok (out, tr)`: the link succeeds with linked object `out`; `tr` is
+the trace of what `inject_object` recorded per input object (`section_offsets`
+and the new symbol ids).  `traceRecs inp.objs tr` lists every input section
+(*piece*) with its recorded offset, in link order.
+
+Relocation application is not part of the model (C10/C11): the theorems speak
+about the linked object before `do_relocations`, which only rewrites the
+relocation sites the property exempts.
+-/
 namespace Props.C12
-theorem placeholder : True := trivial
+open Model.Linker Proofs.Linker Spec.Link
+
+/-! ### contents: every input section stands unchanged at its recorded offset -/
+
+/-- The trace has one entry per object, one named offset per input section and one id per input
+    symbol, so `traceRecs` enumerates exactly the input sections, in order. -/
+theorem trace_enumerates_pieces (inp : LinkInput) (out : Obj) (tr : List ObjTrace)
+    (h : linkT inp = .ok (out, tr)) :
+    All2 TraceShape inp.objs tr ∧
+    (traceRecs inp.objs tr).map (·.piece) = pieces inp ∧
+    (traceRecs inp.objs tr).map (·.off) = tr.flatMap (fun t => t.offsets.map (·.2)) := by
+  obtain ⟨d1, d2, li⟩ := linkT_inv h
+  have f := link_facts li
+  exact ⟨f.shape, (traceRecs_pieces f.shape).1, (traceRecs_pieces f.shape).2⟩
+
+/-- Every input section's bytes occur unchanged at its recorded offset in the output section of
+    the same name; the offset is a multiple of the piece's alignment.  For ALL object lists and
+    layouts (no hypothesis besides success of the link). -/
+theorem content_preserved (inp : LinkInput) (out : Obj) (tr : List ObjTrace)
+    (h : linkT inp = .ok (out, tr)) :
+    ∀ r ∈ traceRecs inp.objs tr,
+      (∃ sec, getSec out.sections r.piece.name = some sec ∧ Occurs sec.data r.off r.piece.data) ∧
+      0 < r.piece.alignment ∧ r.off % r.piece.alignment = 0 := by
+  obtain ⟨d1, d2, li⟩ := linkT_inv h
+  have f := link_facts li
+  intro r hr
+  have hp := f.good.present r hr
+  have ⟨hd, _, hs⟩ := f.keeps.dataOf hp
+  have ho := f.good.occurs r hr
+  rw [← hd] at ho
+  cases hg : getSec out.sections r.piece.name with
+  | none => rw [hg] at hs; cases hs
+  | some sec =>
+    rw [dataOf_of_get hg] at ho
+    exact ⟨⟨sec, rfl, ho⟩, f.good.aligned r hr⟩
+
+/-- byte-wise form of `content_preserved` -/
+theorem content_preserved_bytes (inp : LinkInput) (out : Obj) (tr : List ObjTrace)
+    (h : linkT inp = .ok (out, tr)) (r : Rec) (hr : r ∈ traceRecs inp.objs tr) :
+    ∃ sec, getSec out.sections r.piece.name = some sec ∧
+      ∀ i, i < r.piece.data.length → sec.data[r.off + i]? = r.piece.data[i]? := by
+  obtain ⟨⟨sec, hs, ho⟩, _⟩ := content_preserved inp out tr h r hr
+  exact ⟨sec, hs, fun i hi => ho.getElem i hi⟩
+
+/-- The occurrences are disjoint: pieces of one output section lie one after the other in link
+    order (an earlier piece ends before a later piece begins). -/
+theorem pieces_disjoint (inp : LinkInput) (out : Obj) (tr : List ObjTrace)
+    (h : linkT inp = .ok (out, tr)) :
+    (traceRecs inp.objs tr).Pairwise
+      (fun r1 r2 => r1.piece.name = r2.piece.name → r1.off + r1.piece.data.length ≤ r2.off) := by
+  obtain ⟨d1, d2, li⟩ := linkT_inv h
+  exact (link_facts li).good.ordered
+
+/-- The alignment of an output section is at least the alignment of each of its pieces, and it is
+    4 (the default) or the alignment of one of its pieces. -/
+theorem output_alignment (inp : LinkInput) (out : Obj) (tr : List ObjTrace)
+    (h : linkT inp = .ok (out, tr)) :
+    ∀ r ∈ traceRecs inp.objs tr, ∃ sec, getSec out.sections r.piece.name = some sec ∧
+      r.piece.alignment ≤ sec.alignment ∧
+      (sec.alignment = 4 ∨ ∃ r' ∈ traceRecs inp.objs tr, r'.piece.name = r.piece.name ∧
+        sec.alignment = r'.piece.alignment) := by
+  obtain ⟨d1, d2, li⟩ := linkT_inv h
+  have f := link_facts li
+  intro r hr
+  have ⟨_, ha, hs⟩ := f.keeps.dataOf (f.good.present r hr)
+  cases hg : getSec out.sections r.piece.name with
+  | none => rw [hg] at hs; cases hs
+  | some sec =>
+    rw [alignOf_of_get hg] at ha
+    refine ⟨sec, rfl, by rw [ha]; exact f.good.align_le r hr, ?_⟩
+    rw [ha]; exact f.good.align_src _
+
+/-! ### symbols: value = final address of the section + recorded offset + offset in the piece -/
+
+/-- Every defined input symbol (value `v` in section `n` of its object) is mapped to a symbol of
+    the output with the same name and binding whose resolved value
+    (`ObjectFile.get_symbol_id_value`) is `section n's final address + section_offsets[n] + v`.
+    For ALL inputs. -/
+theorem symbol_values (inp : LinkInput) (out : Obj) (tr : List ObjTrace)
+    (h : linkT inp = .ok (out, tr)) :
+    ∀ p ∈ inp.objs.zip tr, ∀ q ∈ p.1.symbols.zip p.2.symIds, ∀ v n,
+      q.1.value = some v → q.1.sect = some n →
+      ∃ off sec y, dictGet p.2.offsets n = some off ∧ getSec out.sections n = some sec ∧
+        out.symbols[q.2]? = some y ∧ y.name = q.1.name ∧ y.binding = q.1.binding ∧
+        getSymbolIdValue out q.2 = .ok (sec.address + off + v) := by
+  obtain ⟨d1, d2, li⟩ := linkT_inv h
+  have f := link_facts li
+  intro p hp q hq v n hv hn
+  obtain ⟨y, hy, h1, h2, h3⟩ := f.syms p hp q hq
+  obtain ⟨off, ho, hyv, hys⟩ := h3 v n hv hn
+  -- the section exists: `n` is the name of one of the object's sections
+  have hshape := f.shape.of_mem_zip p hp
+  have hmem := dictGet_some_mem ho
+  have hname : n ∈ p.1.sections.map (·.name) := by
+    rw [← hshape.1]; exact List.mem_map_of_mem (f := (·.1)) hmem
+  obtain ⟨s, hs, hsn⟩ := List.mem_map.1 hname
+  have hrec : ∃ r ∈ traceRecs inp.objs tr, r.piece.name = n := by
+    have hpieces := (traceRecs_pieces f.shape).1
+    have hsp : s ∈ inp.objs.flatMap (·.sections) :=
+      List.mem_flatMap.2 ⟨p.1, (List.of_mem_zip hp).1, hs⟩
+    rw [← hpieces] at hsp
+    obtain ⟨r, hr, e⟩ := List.mem_map.1 hsp
+    exact ⟨r, hr, by rw [e]; exact hsn⟩
+  obtain ⟨r, hr, hrn⟩ := hrec
+  have ⟨_, _, hsome⟩ := f.keeps.dataOf (f.good.present r hr)
+  rw [hrn] at hsome
+  cases hg : getSec out.sections n with
+  | none => rw [hg] at hsome; cases hsome
+  | some sec =>
+    refine ⟨off, sec, y, ho, rfl, hy, h1, h2, ?_⟩
+    rw [getSymbolIdValue_of f.idinv hy hyv hys hg]
+    congr 1; omega
+
+/-- When the section names inside an object are distinct, `section_offsets[name]` is the recorded
+    offset of that very piece (so `symbol_values` speaks about the piece the symbol lives in). -/
+theorem offsets_lookup (o : Obj) (t : ObjTrace) (hs : TraceShape o t)
+    (hnd : (o.sections.map (·.name)).Nodup) :
+    ∀ r ∈ recsOf o.sections t.offsets, dictGet t.offsets r.piece.name = some r.off :=
+  dictGet_recsOf hs.1 hnd
+
+/-! ### layout: placed sections are aligned, inside their memory, and do not overlap -/
+
+/-- After a successful link whose layout places every section at most once: one image per memory
+    (same name, address = memory location, the placed sections in order); every placed section has
+    `address % alignment = 0`, starts at or after `mem.location` and ends at or before
+    `mem.location + mem.size`; the sections of an image form an ascending chain (hence are pairwise
+    non-overlapping). -/
+theorem layout_placement (inp : LinkInput) (out : Obj) (tr : List ObjTrace)
+    (h : linkT inp = .ok (out, tr)) (hnd : (placedNames (memories inp)).Nodup) :
+    All2 (fun m img =>
+      img.name = m.name ∧ img.address = m.location ∧ img.sections = m.inputs.flatMap inputPlaced ∧
+      (imageSections out.sections img).map (·.name) = img.sections ∧
+      (∀ s ∈ imageSections out.sections img,
+        0 < s.alignment ∧ s.address % s.alignment = 0 ∧
+        m.location ≤ s.address ∧ s.address + s.data.length ≤ m.location + m.size) ∧
+      (imageSections out.sections img).Pairwise (fun a b => a.address + a.data.length ≤ b.address))
+      (memories inp) out.images := by
+  obtain ⟨d1, d2, li⟩ := linkT_inv h
+  have hall := link_images li hnd
+  refine hall.imp (fun m img ok => ⟨ok.name_eq, ok.addr_eq, ok.secs_eq, ok.present, fun s hs => ?_, chain_pairwise _ _ ok.chain⟩)
+  have hb := chain_mem_bounds _ _ ok.chain s hs
+  have ha := ok.aligned s hs
+  have hf := ok.fits
+  exact ⟨ha.1, ha.2, hb.1, Nat.le_trans hb.2 hf⟩
+
+/-- `Image.data` of every image of such a link succeeds and, restricted to a section of the image,
+    equals the section. -/
+theorem image_data_restricts (inp : LinkInput) (out : Obj) (tr : List ObjTrace)
+    (h : linkT inp = .ok (out, tr)) (hnd : (placedNames (memories inp)).Nodup) :
+    ∀ img ∈ out.images, ∃ d, imageData out.sections img = .ok d ∧
+      ∀ s ∈ imageSections out.sections img, Occurs d (s.address - img.address) s.data := by
+  obtain ⟨d1, d2, li⟩ := linkT_inv h
+  intro img hi
+  obtain ⟨m, _, ok⟩ := (link_images li hnd).mem_right img hi
+  have hc : Chain img.address (imageSections out.sections img) := ok.addr_eq ▸ ok.chain
+  obtain ⟨d, hd⟩ := (imageDataFrom_ok_iff _ _).2 hc
+  exact ⟨d, hd, (imageDataFrom_spec _ _ _ hd).2⟩
+
+/-! ### `Image.data` in general: gap fill, overlap error -/
+
+/-- `Image.data` returns bytes iff the sections are in ascending order and none starts before the
+    previous one ends; otherwise it raises ValueError ("sections overlap"). -/
+theorem image_data_ok_iff_chain (base : Nat) (secs : List Section) :
+    ((∃ d, imageDataFrom base secs = .ok d) ↔ Chain base secs) ∧
+    (∀ e, imageDataFrom base secs = .error e → e = .ValueError) :=
+  ⟨imageDataFrom_ok_iff secs base, fun e he => imageDataFrom_error secs base e he⟩
+
+/-- When it succeeds, the result spans from the image address to the end of the last section and
+    every section stands at `address - base` (gaps are filled, nothing else is inserted). -/
+theorem image_data_contents (base : Nat) (secs : List Section) (d : List Nat)
+    (h : imageDataFrom base secs = .ok d) :
+    d.length = chainEnd base secs - base ∧ ∀ s ∈ secs, Occurs d (s.address - base) s.data :=
+  imageDataFrom_spec secs base d h
+
+/-! ### piece addresses (needs power-of-two alignments) -/
+
+/-- If all pieces merged into an output section have power-of-two alignments, then for every
+    placement of that section at an address that satisfies the *section's* alignment, every piece
+    lands at an address that satisfies the *piece's* alignment. -/
+theorem piece_address_aligned (inp : LinkInput) (out : Obj) (tr : List ObjTrace)
+    (h : linkT inp = .ok (out, tr)) (r : Rec) (hr : r ∈ traceRecs inp.objs tr)
+    (hp : ∀ r' ∈ traceRecs inp.objs tr, r'.piece.name = r.piece.name → IsPow2 r'.piece.alignment)
+    (sec : Section) (hs : getSec out.sections r.piece.name = some sec)
+    (ha : sec.address % sec.alignment = 0) :
+    (sec.address + r.off) % r.piece.alignment = 0 := by
+  obtain ⟨d1, d2, li⟩ := linkT_inv h
+  have f := link_facts li
+  have hd := f.good.piece_dvd hr hp
+  have ⟨_, hal, _⟩ := f.keeps.dataOf (f.good.present r hr)
+  rw [← hal, alignOf_of_get hs] at hd
+  have h1 : r.piece.alignment ∣ sec.address := Nat.dvd_trans hd (Nat.dvd_of_mod_eq_zero ha)
+  have h2 : r.piece.alignment ∣ r.off := Nat.dvd_of_mod_eq_zero (f.good.aligned r hr).2
+  exact Nat.mod_eq_zero_of_dvd (Nat.dvd_add h1 h2)
+
+/-! ### symbols defined by the layout -/
+
+/-- `DEFINESYMBOL(s)` of the layout: the output has a global symbol `s` whose resolved value is
+    the final address of its marker section `_$s_` (value 0 in that section).  For ALL layouts. -/
+theorem layout_symbol_definitions (inp : LinkInput) (out : Obj) (tr : List ObjTrace)
+    (h : linkT inp = .ok (out, tr)) :
+    ∀ m ∈ memories inp, ∀ s, MemInput.symDef s ∈ m.inputs →
+      ∃ id y sec, out.symbols[id]? = some y ∧ y.name = s ∧ y.binding = .global ∧
+        getSec out.sections (dollarName s) = some sec ∧ getSymbolIdValue out id = .ok sec.address := by
+  obtain ⟨d1, d2, li⟩ := linkT_inv h
+  have ⟨_, i2, _⟩ := mergeObjects_syms li.merge li.d1_idinv
+  have k := layoutSections_keeps li.layout i2
+  intro m hm s hs
+  obtain ⟨⟨id, y, hy, h1, h2, h3⟩, hsec⟩ := layoutSections_symdef li.layout i2 m hm s hs
+  cases hg : getSec out.sections (dollarName s) with
+  | none => rw [hg] at hsec; cases hsec
+  | some sec =>
+    have hv := h3 0 rfl
+    refine ⟨id, y, sec, hy, h1, h2, rfl, ?_⟩
+    rw [getSymbolIdValue_of k.idinv hy hv.1 hv.2 hg]; simp
+
+/-! ### when does a link fail? -/
+
+/-- On well-formed requests (`Spec.Link.WF`: no dangling references inside an object, no zero
+    alignment, at most one entry point, no layout in a partial link, a well-formed layout that
+    places every section at most once) the link fails **iff** a global symbol is defined twice, or
+    (non-partial link) a referenced global symbol is never defined, or a memory needs more bytes
+    than it has — and then the error is a `CompilerError`.
+    `_partial`: for ill-formed requests nothing is claimed (see `link_fails_full`). -/
+theorem link_fails_iff_partial (inp : LinkInput) (wf : WF inp = true) :
+    ((∃ e, linkT inp = .error e) ↔ DupGlobal inp ∨ UndefGlobal inp ∨ Overfull inp) ∧
+    (∀ e, linkT inp = .error e → e = .CompilerError) :=
+  linkT_fails_iff wf
+
+/-- Full statement (not proved): the three conditions make *every* request fail, also ill-formed
+    ones.  Missing: an invariant-based argument that does not rely on the other stages of the
+    link succeeding (for ill-formed requests the link fails anyway, but possibly earlier and with
+    a different exception class, e.g. KeyError for a symbol in a section its object lacks). -/
+def link_fails_full : Prop :=
+  ∀ inp : LinkInput, DupGlobal inp ∨ UndefGlobal inp ∨ Overfull inp → ∃ e, linkT inp = .error e
+
+/-- Success form: a well-formed request links iff none of the three conditions holds. -/
+theorem link_succeeds_iff_partial (inp : LinkInput) (wf : WF inp = true) :
+    (∃ out tr, linkT inp = .ok (out, tr)) ↔ ¬ DupGlobal inp ∧ ¬ UndefGlobal inp ∧ ¬ Overfull inp := by
+  have h := (linkT_fails_iff wf).1
+  constructor
+  · rintro ⟨out, tr, hok⟩
+    have : ¬ (∃ e, linkT inp = .error e) := by rintro ⟨e, he⟩; rw [hok] at he; cases he
+    rw [h] at this
+    exact ⟨fun a => this (Or.inl a), fun a => this (Or.inr (Or.inl a)), fun a => this (Or.inr (Or.inr a))⟩
+  · rintro ⟨a, b, c⟩
+    cases hl : linkT inp with
+    | ok p => exact ⟨p.1, p.2, rfl⟩
+    | error e =>
+      have := h.1 ⟨e, hl⟩
+      rcases this with x | x | x
+      · exact absurd x a
+      · exact absurd x b
+      · exact absurd x c
+
+/-! ### concrete instances: hypotheses are satisfiable, guards are necessary (tests, labelled as such) -/
+
+private def sy (id : Nat) (name : String) (b : Binding) (value : Option Nat) (sect : Option String) : Symbol :=
+  { id, name, binding := b, value, sect, typ := "object", size := 0 }
+
+private def oA : Obj :=
+  { sections := [{ name := "code", alignment := 4, data := [1, 2, 3, 4, 5] }],
+    symbols := [sy 0 "f1" .global (some 1) (some "code"), sy 1 "l" .loc (some 2) (some "code")] }
+private def oB : Obj :=
+  { sections := [{ name := "code", alignment := 8, data := [6, 7, 8] }, { name := "data", alignment := 4, data := [9, 9] }],
+    symbols := [sy 0 "f2" .global (some 2) (some "code"), sy 1 "f1" .global none none] }
+private def oC : Obj :=
+  { sections := [{ name := "code", alignment := 2, data := [10] }],
+    symbols := [sy 7 "f3" .global (some 0) (some "code"), sy 3 "ext" .global none none] }
+
+private def layA (flashSize : Nat) : Layout :=
+  { memories := [{ name := "flash", location := 0x100, size := flashSize,
+                   inputs := [.sect "code", .align 8, .symDef "ext"] },
+                 { name := "ram", location := 0x1001, size := 100, inputs := [.sect "data", .sectData "code"] }] }
+
+private def exOK : LinkInput := { objs := [oA, oB, oC], layout := some (layA 16) }
+
+/-- outcome of a link as decidable data: `("ok", sections)` or `(exception class, [])` -/
+private def view (r : Except Err (Obj × List ObjTrace)) : String × List (String × Nat × Nat × List Nat) :=
+  match r with
+  | .ok (o, _) => ("ok", o.sections.map (fun s => (s.name, s.address, s.alignment, s.data)))
+  | .error e => (e.name, [])
+
+private def viewB (r : Except Err (List Nat)) : String × List Nat :=
+  match r with
+  | .ok d => ("ok", d)
+  | .error e => (e.name, [])
+
+/-- three objects merged into `code` (padding before the 2nd piece), two memories, ALIGN,
+    DEFINESYMBOL (resolving `ext`), SECTIONDATA; flash is exactly full (need 16 = size 16). -/
+example : view (linkT exOK) = ("ok",
+    [("code", 0x100, 8, [1, 2, 3, 4, 5, 0, 0, 0, 6, 7, 8, 0, 10]), ("data", 0x1004, 4, [9, 9]),
+     ("_$ext_", 0x110, 1, []), ("_$code_", 0x1006, 1, [1, 2, 3, 4, 5, 0, 0, 0, 6, 7, 8, 0, 10])]) := by decide +kernel
+example : WF exOK = true := by decide +kernel
+example : (placedNames (memories exOK)).Nodup := by decide +kernel
+example : (match linkT exOK with | .ok (_, tr) => tr.map (·.offsets) | _ => []) =
+    [[("code", 0)], [("code", 8), ("data", 0)], [("code", 12)]] := by decide +kernel
+/-- one byte less and the link fails with CompilerError (`Overfull`); an undefined or duplicate global likewise -/
+example : view (linkT { exOK with layout := some (layA 15) }) = ("CompilerError", []) := by decide +kernel
+example : Overfull { exOK with layout := some (layA 15) } := by decide +kernel
+example : view (linkT { exOK with layout := none }) = ("CompilerError", []) := by decide +kernel
+example : UndefGlobal { exOK with layout := none } := by decide +kernel
+example : view (linkT { exOK with objs := [oA, oB, oC, oA] }) = ("CompilerError", []) := by decide +kernel
+example : DupGlobal { exOK with objs := [oA, oB, oC, oA] } := by decide +kernel
+/-- a partial link of the same objects succeeds (undefined `ext` is no error) -/
+example : view (linkT { exOK with layout := none, partialLink := true }) = ("ok",
+    [("code", 0, 8, [1, 2, 3, 4, 5, 0, 0, 0, 6, 7, 8, 0, 10]), ("data", 0, 4, [9, 9])]) := by decide +kernel
+
+/-- The hypothesis "every section is placed at most once" of `layout_placement` is necessary: with
+    `code` placed in two memories the link succeeds, but `code` ends up at 0x200, outside the first
+    memory [0x100, 0x110) whose image still lists it.  (Ill-formed layout; the model mirrors the code.) -/
+example : view (linkT { objs := [oA], layout := some { memories :=
+      [{ name := "m0", location := 0x100, size := 16, inputs := [.sect "code"] },
+       { name := "m1", location := 0x200, size := 16, inputs := [.sect "code"] }] } }) =
+    ("ok", [("code", 0x200, 4, [1, 2, 3, 4, 5])]) := by decide +kernel
+
+/-- The power-of-two hypothesis of `piece_address_aligned` is necessary: pieces with alignments 3
+    and 3 give an output section of alignment 4; placed at 4, the second piece (offset 3) lands at
+    address 7, not a multiple of 3. -/
+example : (match linkT { objs := [{ sections := [{ name := "s", alignment := 3, data := [1] }] },
+                                   { sections := [{ name := "s", alignment := 3, data := [2] }] }],
+                         layout := some { memories := [{ name := "m", location := 4, size := 16, inputs := [.sect "s"] }] } } with
+    | .ok (o, tr) => (o.sections.map (fun s => (s.address, s.alignment)), tr.map (·.offsets))
+    | .error _ => ([], [])) = ([(4, 4)], [[("s", 0)], [("s", 3)]]) := by decide +kernel
+
+/-- `Image.data`: gap fill and overlap error -/
+example : viewB (imageDataFrom 4 [{ name := "a", address := 6, data := [1, 2] }, { name := "b", address := 9, data := [3] }])
+    = ("ok", [0, 0, 1, 2, 0, 3]) := by decide +kernel
+example : viewB (imageDataFrom 4 [{ name := "a", address := 6, data := [1, 2] }, { name := "b", address := 7, data := [3] }])
+    = ("ValueError", []) := by decide +kernel
+
 end Props.C12
